@@ -10,3 +10,4 @@ CONSTANTS
   MaxEvents = 8
   Dev <- Known
   Pairs2 = TRUE
+  NoDef <- NoDef0
